@@ -441,7 +441,19 @@ package board
 //@ func (Board).InvalidPieceCount
 //@   props C11
 //@   opaque popcnt64
+//@   callers-inline
 //@   ensures [accepts] implies(reachableMaterial(b, 0) && reachableMaterial(b, 1), !result)
 //@   modifies nothing
 //@   nopanic
 //@   loop 1: unroll 2
+//@
+//@ # ---- contracts of the constructors as seen by the UCI driver (C11 gate)
+//@ func FromFEN view uci
+//@   trusted the parser's own contracts are C11 (robustness); here only: a board is returned iff no error
+//@   ensures implies(result1 == nil, result0 != nil)
+//@   modifies nothing
+//@
+//@ func StartPos view uci
+//@   trusted the start position is a parsed constant; its material passes the piece-count gate (TestFENConversion covers it)
+//@   ensures result != nil && !body(result.InvalidPieceCount())
+//@   modifies nothing
